@@ -147,6 +147,8 @@ BI_VARIANTS = [("segments=%d,cached=%d" % (n, c), (n, c)) for n in (0, 1, 2, 3) 
 
 @harness("build_index", ["reader.TdmsReader._build_index", "reader._deduplicate_array", "reader._array_equal"],
          ["C04", "C05", "C06", "C03"], variants=BI_VARIANTS, level="shape-bounded",
+         thorough_variants=[("segments=%d,cached=%d" % (n, c), (n, c)) for n in (4, 5) for c in (0, 1)],
+         thorough_bound="<= 5 segments",
          bound="<= 3 segments; per segment the channel is absent / present with symbolic value counts; "
                "<= 1 previously built index to de-duplicate against", split_variants=False)
 def _build_index(vc):
